@@ -61,8 +61,50 @@ def _same(a, b):
     return None
 
 
+_SHAPES = [(1, 2), (2, 1), (2, 2)]
+
+
+def _z_for(shapes):
+    """Z-update results for a sequence of shapes computed one after the other in THIS process."""
+    from fast_ticc.admm import solver
+    from fast_ticc.containers import arguments
+    out = []
+    for (N, W) in shapes:
+        n = N * W
+        L = n * (n + 1) // 2
+        rng = np.random.default_rng(100 * N + W)
+        x, u = rng.standard_normal(L), rng.standard_normal(L)
+        a = arguments.ADMMArguments(window_size=W, num_data_series=N, rho=1.3, rho_update=None, sparsity_weight=0.2,
+                                    absolute_tolerance=1e-6, relative_tolerance=1e-6, max_iterations=1, verbose=False)
+        try:
+            out.append(np.asarray(solver.admm_update_z(a, u, x), float).tolist())
+        except Exception as exc:
+            out.append('raised ' + repr(exc))
+    return out
+
+
+def _cache_replay(nt):
+    import json
+    import subprocess
+    import sys
+    order = [int(i) for i in nt.get('order', [2, 0, 1])]
+    shapes = [_SHAPES[i] for i in order]
+    here = _z_for(shapes)
+    fresh = []
+    for sh in shapes:
+        p = subprocess.run([sys.executable, '-c',
+                            'import json; from replay.c14 import _z_for; print(json.dumps(_z_for([%r])))' % (sh,)],
+                           capture_output=True, text=True, timeout=300)
+        fresh.append(json.loads(p.stdout.strip().splitlines()[-1])[0])
+    diff = [i for i, (a, b) in enumerate(zip(here, fresh)) if a != b]
+    return {'reproduced': bool(diff), 'signature': 'result-depends-on-earlier-calls' if diff else None,
+            'observed': {'order': shapes, 'differs_at': diff, 'in_sequence': [h if isinstance(h, str) else h[:3] for h in here]}}
+
+
 def replay(w):
     nt = w.get('notes') or {}
+    if nt.get('kind') == 'cache':
+        return _cache_replay(nt)
     K = int(nt.get('K', 3))
     try:
         ref = _run(K, None, 1)
